@@ -12,19 +12,34 @@ LEVEL_TEXT = ('Full in exact arithmetic: Coq theorems over R about the closest-p
               'with 0 -> +, end-point distance beyond the ends, rotation+translation invariance, reflection flips the sign) and about a hand '
               'model of compute_intersection/integrate_with_mortar/penalty energy (Cramer solve solves the intended system, rigid invariance '
               'for both common-normal rules, non-negativity, zero without overlap or when touching at a point, parallel segments: overlap '
-              'length within l(|A|+|B|)/2 and gap integral = h * area integral, penalty energy >= 0 and = 0 iff no sample penetrates, '
-              'level-set kernels). The hand model is tied to the implementation by executing it at binary64 on seeded segment pairs; '
-              'mesh-level level-set/penalty/assembly functions are tied on real meshes. Binary64 rounding and NaN/inf paths are covered by '
-              'the correspondence only.')
+              'length within l(|A|+|B|)/2 and gap integral = h * area integral -- for facing segments with BOTH rules and for same-orientation '
+              'segments with the one-sided rule (round 4) --, penalty energy >= 0 and = 0 iff no sample penetrates, level-set kernels; mesh-level '
+              'level-set / penalty functions over a hand model of the gathers). The hand models are tied to the implementation by executing them '
+              'at binary64 on seeded segment pairs and real meshes (mesh model: exact comparison of the gathered sample points). '
+              'Binary64 (round 4): the sign clause 0 -> + of the regenerated cpp_distance at PrimFloat for points exactly on the line is a Coq '
+              'theorem on a stated grid of 147168 dyadic inputs (bounded, not all floats), replayed on the implementation; the witnesses of the '
+              'open findings C16-F1/F2 are theorems about the binary64 model (NaN / lost overlap). '
+              'Proposed patches (round 4, NOT applied to /repo, text in tools/vlib/c16_patches.py, models in model/M_C16_Patched.v): theorems '
+              'C16_patchF1_* (fall-back normal: unit, rigid, equals the source rule when |nA-nB| > eps, no division by a norm <= eps in any '
+              'numeric type, same-orientation parallel segments give the overlap length) and C16_patchF2_* (toleranced mask + clipping: tol=0 '
+              'is the source, parameters in [0,1], rigid invariance, non-negativity, no end of the exact overlap lost by more than a perturbation '
+              'd <= tol, and for facing parallel segments the area integral within (l/2 + 3(tol+d))(|A|+|B|) of the overlap length on every '
+              'd-perturbed candidate list; the un-toleranced mask is refuted over R); the patched Python is executed against its models and '
+              'against the clauses. Otherwise binary64 rounding and NaN/inf paths are covered by the correspondence only: that rounding perturbs '
+              'the parameters by at most tol is a hypothesis, there is no all-floats statement for the patches.')
 TECHNIQUE = 'Coq proof (Reals) over kernels regenerated from the Python AST + hand model; vm_compute/PrimFloat correspondence'
 GEN = ['Surface', 'SmoothFunctions', 'EdgeCpp', 'MortarContact', 'Levelset']
-TARGETS = ['proofs/L_C16.vo', 'proofs/L_C16m.vo', 'model/M_C16_Mortar.vo']
-COQ_FILES = ['base/Num.v', 'base/Piecewise.v', 'model/M_C16_Mortar.v', 'proofs/L_C18.v', 'proofs/L_C16.v', 'proofs/L_C16m.v', 'props/P_C16.v']
+TARGETS = ['proofs/L_C16.vo', 'proofs/L_C16m.vo', 'proofs/L_C16h.vo', 'proofs/L_C16p.vo', 'proofs/L_C16f.vo', 'proofs/L_C16r.vo', 'model/M_C16_Mortar.vo', 'model/M_C16_Mesh.vo',
+           'model/M_C16_Patched.vo']
+COQ_FILES = ['base/Num.v', 'base/Piecewise.v', 'model/M_C16_Mortar.v', 'model/M_C16_Mesh.v', 'model/M_C16_Patched.v', 'proofs/L_C18.v', 'proofs/L_C16.v',
+             'proofs/L_C16m.v', 'proofs/L_C16h.v', 'proofs/L_C16p.v', 'proofs/L_C16f.v', 'proofs/L_C16r.v', 'props/P_C16.v']
 TRUSTED = ['Coq 8.16.1 kernel + vm_compute (no native_compute)',
            'tools/vlib/py2coq.py translator (Python ast -> Gallina over Num T), cross-checked by running the generated kernels at binary64 against the implementation',
            'hand model model/M_C16_Mortar.v (Cramer instead of LU, first-extremum selection, -1 -> last entry), cross-checked at binary64 against compute_intersection / integrate_with_mortar / assemble_* / penalty energy',
            'correspondence harness: float<->(mantissa,exponent) exchange; tolerances: kernels 1e-12*scale, mortar 1e-9 relative on well-conditioned 2x2 systems (|sin angle| > 1e-3), near-tie cases compared on values only',
-           'theorems are over exact reals; binary64 rounding, NaN and inf are covered only by the correspondence']
+           'hand model model/M_C16_Mesh.v (gathers of the mesh-level level-set / penalty functions), cross-checked exactly (sample points) / to 1e-12 (energies) against LevelsetConstraint / PenaltyContact on structured meshes',
+           'models of the PROPOSED patches model/M_C16_Patched.v, cross-checked at binary64 against the patched Python text tools/vlib/c16_patches.py (not part of /repo)',
+           'theorems are over exact reals except the stated binary64 grid / witness theorems; binary64 rounding, NaN and inf are otherwise covered only by the correspondence']
 ASSUMPTIONS = ['exact real arithmetic in theorems (division total: x/0 = 0 side cases excluded by the explicit guards a <> b, det <> 0)',
                'rigid motion = rotation + translation (a reflection flips the sign of the distance: proved)',
                'mortar theorems hold for every quadrature list with non-negative weights (sum 1 for the parallel case); the implementation uses the 2-point Gauss rule, whose points/weights are read from the implementation and fed to the model',
@@ -36,7 +51,7 @@ RULE = ('segments: random position/orientation, lengths over 3 decades; query po
         'meshes with random displacement fields against plane / corner / circle obstacles. A case is non-trivial when a clamp, an end-point branch, '
         'a sign switch or a validity mask is active or within 1e-6 of switching; distinct = distinct input tuples')
 IMPORTS = ['From OV.gen Require Import Gen_Surface Gen_SmoothFunctions Gen_EdgeCpp Gen_MortarContact Gen_Levelset.',
-           'From OV.model Require Import M_C16_Mortar.']
+           'From OV.model Require Import M_C16_Mortar M_C16_Mesh M_C16_Patched.']
 
 PYTH = [(3, 4, 5), (5, 12, 13), (8, 15, 17), (20, 21, 29), (-3, 4, 5), (12, -5, 13), (-15, -8, 17), (0, 1, 1), (-1, 0, 1)]
 INTEGRANDS = [
@@ -569,6 +584,10 @@ def correspondence(ctx, model_ok):
     ctx.log('Contact.py mesh-level functions done')
     evals += mode_checks(ctx, cases, out, pairs, ls, mo, stable)
     ctx.log('execution modes done')
+    evals += on_line_checks(ctx, model_ok)
+    ctx.log('binary64 on-the-line grid done')
+    evals += patched_checks(ctx, model_ok)
+    ctx.log('same-orientation clause / proposed patches done')
     ctx.count('evaluations', evals)
     ctx.count('distinct_nontrivial', len(distinct))
     ctx.sample(dict(fn='cpp_distance', a=cases[0][0], b=cases[0][1], p=cases[0][2], impl=out['d'][0]))
@@ -688,6 +707,7 @@ def mesh_checks(ctx, model_ok):
     r = ctx.rng('mesh')
     n = 0
     exprs, wants, metas = [], [], []
+    mexprs, mwants = [], []
     for trial in range(ctx.n(6, 15)):
         Nx, Ny = r.randrange(2, 6), r.randrange(2, 5)
         xe, ye = (0.0, r.uniform(0.5, 3.0)), (0.0, r.uniform(0.5, 2.0))
@@ -798,6 +818,18 @@ def mesh_checks(ctx, model_ok):
             exprs.append('fencs [penalty_total [%s]]' % '; '.join(etxt))
             wants.append(E)
             metas.append(case)
+            # the mesh-level hand model (model/M_C16_Mesh.v) on the very same mesh, displacement field, rule and edge list
+            phi = ('(fun x y => plane x y %s)' % fl(pars[0]) if which == 'plane' else
+                   '(fun x y => corner x y %s %s)' % (fl(pars[0]), fl(pars[1])) if which == 'corner' else
+                   '(fun x y => sphere x y %s %s %s)' % (fl(pars[0]), fl(pars[1]), fl(pars[2])))
+            pl = lambda arr: '[' + '; '.join('(%s, %s)' % (fl(v[0]), fl(v[1])) for v in arr) + ']'
+            mexprs.append("(let cs := %s in let ds := %s in let cn := [%s] in let xg := [%s] in let wg := [%s] in let es := [%s] in "
+                          "fencs (flat_pts (contact_point_coordinates cs ds cn xg es) ++ concat (levelset_constraints %s cs ds cn xg es) ++ "
+                          "[total_penalty_contact_energy %s cs ds cn xg wg es %s]))"
+                          % (pl(coords), pl(U), '; '.join('(%d, %d, %d)' % tuple(int(v) for v in c) for c in conns),
+                             '; '.join(fl(x) for x in xg), '; '.join(fl(w) for w in wg),
+                             '; '.join('(%d, %d)' % (int(e[0]), int(e[1])) for e in edges), phi, phi, fl(k)))
+            mwants.append(([float(v) for v in cpts.reshape(-1)], [float(v) for v in cons.reshape(-1)], E, case))
     ctx.count('mesh_cases', n)
     if model_ok and exprs:
         res = C.coq_eval(IMPORTS, exprs, 'C16m', shard=100)
@@ -805,6 +837,33 @@ def mesh_checks(ctx, model_ok):
             v = C.dec_floats(z)[0]
             if not C.close(v, w, rtol=1e-12, atol=1e-15):
                 ctx.fail('correspondence', 'model penalty_total = %r but compute_total_penalty_contact_energy = %r' % (v, w), case=case)
+    if model_ok and mexprs:
+        # mesh-level model: gathered / interpolated sample points EXACTLY (same expression, no fused operation observed), obstacle values
+        # to 4 ulp of the coordinate scale (sqrt in sphere), energy to 1e-12 relative (order of the dot product)
+        res = C.coq_eval(IMPORTS, mexprs, 'C16M', shard=6, jobs=2)
+        npt = nbad = 0
+        for z, (wpts, wcons, wE, case) in zip(res, mwants):
+            v = C.dec_floats(z)
+            if len(v) != len(wpts) + len(wcons) + 1:
+                ctx.fail('correspondence', 'mesh model returns %d values, implementation %d' % (len(v), len(wpts) + len(wcons) + 1), case=case)
+                continue
+            vp, vc, vE = v[:len(wpts)], v[len(wpts):len(wpts) + len(wcons)], v[-1]
+            npt += len(wpts) + len(wcons)
+            sc = 1 + scale_of(case['xExtent'], case['yExtent'])
+            if any(a != b for a, b in zip(vp, wpts)):
+                j = [a != b for a, b in zip(vp, wpts)].index(True)
+                nbad += 1
+                ctx.fail('correspondence', 'mesh model contact_point_coordinates entry %d = %r but compute_contact_point_coordinates gives %r (exact comparison)'
+                         % (j, vp[j], wpts[j]), case=case)
+            if any(not C.close(a, b, rtol=0, atol=1e-15 * sc) for a, b in zip(vc, wcons)):
+                j = [not C.close(a, b, rtol=0, atol=1e-15 * sc) for a, b in zip(vc, wcons)].index(True)
+                nbad += 1
+                ctx.fail('correspondence', 'mesh model levelset_constraints entry %d = %r but compute_levelset_constraints gives %r' % (j, vc[j], wcons[j]), case=case)
+            if not C.close(vE, wE, rtol=1e-12, atol=1e-300):
+                nbad += 1
+                ctx.fail('correspondence', 'mesh model total_penalty_contact_energy = %r but compute_total_penalty_contact_energy = %r' % (vE, wE), case=case)
+        ctx.count('mesh_model_values_compared', npt + len(mwants))
+        ctx.count('mesh_model_mismatches', nbad)
     return n
 
 
@@ -1052,6 +1111,199 @@ def contact_mesh_checks(ctx):
         ctx.fail('conclusion', 'Levelset.combined is not the pointwise minimum of the two obstacle functions', case=dict(fn='contactmesh', clause='combined'), concrete=True)
     ctx.count('contact_mesh_cases', n)
     return n
+
+# ----------------------------------------------------------------------------------------------- round 4: binary64 grid, patches
+
+GRID_ES = (-3, 0, 2)
+
+
+def on_line_checks(ctx, model_ok):
+    """the grid of C16_binary64_on_line_counts_as_positive replayed on the implementation: segment a = (a0,a1) 2^e, b = a + (d0,d1) 2^e,
+    p = a + (k/4)(b - a) -- every quantity is exact in binary64, so the comparison with the theorem's subject (the regenerated kernel
+    at PrimFloat) is exact; the clause itself (0 -> +, beyond the ends +|p - end|) is evaluated on the implementation's outputs"""
+    I = impl()
+    r = ctx.rng('online')
+    pts = []
+    for _ in range(ctx.n(1500, 12000)):
+        e = r.choice(GRID_ES)
+        a0, a1, d0, d1 = (r.randrange(-3, 4) for _ in range(4))
+        if d0 == 0 and d1 == 0:
+            continue
+        pts.append((e, a0, a1, d0, d1, r.randrange(-8, 13)))
+    sc = lambda m, e: math.ldexp(m, e)
+    cases = [((sc(a0, e), sc(a1, e)), (sc(a0 + d0, e), sc(a1 + d1, e)), (sc(4 * a0 + k * d0, e - 2), sc(4 * a1 + k * d1, e - 2)), 'exact')
+             for (e, a0, a1, d0, d1, k) in pts]
+    out = run_cpp_impl(cases)
+    nz = nb = 0
+    for i, (e, a0, a1, d0, d1, k) in enumerate(pts):
+        a, b, p, _ = cases[i]
+        d = out['d'][i]
+        if 0 <= k <= 4:
+            nz += 1
+            ok = (d == 0.0)
+            want = '0 (a point on the segment counts as +)'
+        else:
+            nb += 1
+            end = a if k < 0 else b
+            w = math.sqrt((end[0] - p[0]) * (end[0] - p[0]) + (end[1] - p[1]) * (end[1] - p[1]))
+            ok = (d == w and d > 0)
+            want = '+|p - end| = %r' % w
+        if not (ok and d >= 0):
+            ctx.fail('conclusion', 'point exactly on the line of edge=(%r,%r), p=%r (t = %d/4): cpp_distance = %r, expected %s' % (a, b, p, k, d, want),
+                     case=dict(fn='cpp', a=a, b=b, p=p, exact=True, grid=(e, a0, a1, d0, d1, k)), concrete=True)
+    ctx.count('on_line_grid_points_on_segment', nz)
+    ctx.count('on_line_grid_points_beyond_ends', nb)
+    if model_ok:
+        m = ctx.n(300, 1500)
+        ex = ['fenc (line_dist (%d) (%d) (%d) (%d) (%d) (%d))' % t for t in pts[:m]]
+        res = C.coq_eval(IMPORTS + ['From OV.proofs Require Import L_C16f.'], ex, 'C16L', shard=400, jobs=2)
+        bad = 0
+        for z, t, dd, cs in zip(res, pts[:m], out['d'][:m], cases[:m]):
+            v = C.dec_floats(z)[0]
+            if not (v == dd):
+                bad += 1
+                if bad <= 5:
+                    ctx.fail('correspondence', 'binary64 kernel line_dist%r = %r but EdgeCpp.cpp_distance gives %r (exact comparison on dyadic data)' % (t, v, dd),
+                             case=dict(fn='cpp', a=cs[0], b=cs[1], p=cs[2], exact=True))
+        ctx.count('on_line_grid_model_vs_impl_exact', len(ex))
+    return len(pts)
+
+
+def gen_patched_pairs(ctx):
+    """parallel pairs in the axis frame A = (0,0)-(LA,0), B on y = -h spanning [v,u] (v < u), then moved rigidly.
+    -> (a0, a1, b0, b1, kind, (LA, LB, h, overlap))"""
+    r = ctx.rng('patched')
+    out = []
+
+    def add(LA, v, u, h, same, mot, kind):
+        pts = [(0.0, 0.0), (LA, 0.0)] + ([(v, -h), (u, -h)] if same else [(u, -h), (v, -h)])
+        q = [rot(*mot, p) for p in pts] if mot else pts
+        out.append((q[0], q[1], q[2], q[3], kind, (LA, u - v, h, max(0.0, min(LA, u) - max(0.0, v)))))
+    for _ in range(ctx.n(40, 200)):              # dyadic, axis aligned (normals bitwise equal for same orientation), translated only
+        k = r.randrange(-2, 3)
+        d = lambda lo, hi: math.ldexp(r.randrange(lo, hi), k - 2)
+        LA, v = d(2, 17), d(-8, 12)
+        u = v + d(1, 17)
+        mot = (1.0, 0.0, d(-8, 9), d(-8, 9))
+        add(LA, v, u, r.choice([d(1, 5), -d(1, 5)]), True, mot, 'same_exact')
+    for kind, same in (('same_rot', True), ('facing_rot', False)):
+        for _ in range(ctx.n(50, 300)):
+            LA = 10.0 ** r.uniform(-1, 1)
+            while True:
+                v = r.uniform(-1.5, 1.2) * LA
+                u = v + LA * 10.0 ** r.uniform(-1, 0.7)
+                if all(abs(x) > 0.03 * LA for x in (v, u, v - LA, u - LA)):
+                    break
+            ang = r.uniform(0, 2 * math.pi)
+            add(LA, v, u, LA * r.choice([-1, 1, 1]) * 10.0 ** r.uniform(-3, -0.3), same, (math.cos(ang), math.sin(ang), r.uniform(-3, 3), r.uniform(-3, 3)), kind)
+    for kind, same in (('aligned', False), ('aligned_same', True)):
+        for _ in range(ctx.n(50, 400)):
+            L = r.choice([1.0, 0.5, 2.0, r.uniform(0.1, 3)])
+            v, u = r.choice([(0.0, L), (0.0, 2 * L), (-L, L), (0.0, 0.5 * L), (0.5 * L, L)])
+            ang = r.uniform(0, 2 * math.pi)
+            add(L, v, u, r.uniform(0.01, 0.3), same, (math.cos(ang), math.sin(ang), r.uniform(-3, 3), r.uniform(-3, 3)), kind)
+    return out
+
+
+def patched_checks(ctx, model_ok):
+    """(a) L2 of C16_parallel_same_orientation_from_a on the UNPATCHED implementation; (b) the PROPOSED patches (tools/vlib/c16_patches.py,
+    /repo untouched): clauses of C16_patchF1_* / C16_patchF2_* on the patched Python, and the patched Python against its Coq models"""
+    from vlib import c16_patches as P
+    I = impl()
+    jax, jnp, MC = I['jax'], I['jnp'], I['MC']
+    eps, tol = P.EPS_F1, P.TOL_F2
+    one, gap = INTEGRANDS[0][1], INTEGRANDS[1][1]
+    if 'p_ready' not in I:
+        avgp = P.make_average_normal_patched(eps)
+        I['p_rules'] = dict(from_a=MC.compute_normal_from_a, average_p=avgp)
+        for rn, rule in I['p_rules'].items():
+            for fn, f in (('one', one), ('gap', gap)):
+                I['pint_%s_%s' % (rn, fn)] = jax.jit(jax.vmap(lambda A, B, l, rule=rule, f=f: P.integrate_with_mortar_patched(A, B, rule, f, l, tol)))
+        I['pnrm'] = jax.jit(jax.vmap(avgp))
+        I['p_ready'] = True
+    pairs = gen_patched_pairs(ctx)
+    rl = ctx.rng('plsmooth')
+    ls = [rl.choice([1e-9, 1e-7, 1e-3, 0.25]) for _ in pairs]
+    rm = ctx.rng('pmotion')
+    motions = []
+    for _ in pairs:
+        x, y, z = rm.choice(PYTH)
+        motions.append((x / z, y / z, math.ldexp(rm.randrange(-16, 17), -2), math.ldexp(rm.randrange(-16, 17), -2)))
+
+    def run(prs):
+        A = jnp.array([[p[0], p[1]] for p in prs])
+        B = jnp.array([[p[2], p[3]] for p in prs])
+        L = jnp.array(ls)
+        o = {k: [float(v) for v in I['pint_' + k](A, B, L)] for k in ('from_a_one', 'from_a_gap', 'average_p_one', 'average_p_gap')}
+        o['nrm'] = [[float(v) for v in row] for row in I['pnrm'](A, B)]
+        o['nA'] = [[float(v) for v in row] for row in I['mnormal'](A)]
+        o['dn'] = [float(x) for x in jnp.max(jnp.abs(I['mnormal'](A) - I['mnormal'](B)), axis=1)]
+        o['avg'] = [[float(v) for v in row] for row in I['nrm_average'](A, B)]
+        o['src_from_a_one'] = [float(v) for v in I['int_from_a_one'](A, B, L)]
+        o['src_from_a_gap'] = [float(v) for v in I['int_from_a_gap'](A, B, L)]
+        return o
+    o1 = run(pairs)
+    o2 = run([tuple(rot(*m, q) for q in pr[:4]) + pr[4:] for pr, m in zip(pairs, motions)])
+    kinds = {}
+    fallback = 0
+    for i, (a0, a1, b0, b1, kind, (LA, LB, h, ov)) in enumerate(pairs):
+        kinds[kind] = kinds.get(kind, 0) + 1
+        l, sc = ls[i], max(LA, LB)
+        case = dict(fn='mortar', a0=a0, a1=a1, b0=b0, b1=b1, l=l, kind='patched:' + kind, expected=ov)
+        bound = l * (LA + LB) / 2 + 1e-9 * sc
+        # (a) unpatched source, one-sided rule, same orientation (ends not aligned, or aligned exactly on dyadic data)
+        if kind in ('same_exact', 'same_rot'):
+            va, vg = o1['src_from_a_one'][i], o1['src_from_a_gap'][i]
+            if not (abs(va - ov) <= bound and abs(vg - h * va) <= 1e-9 * sc * (1 + abs(h))):
+                ctx.fail('conclusion', 'same-orientation parallel segments, one-sided rule: area %r (overlap %r, bound %r), gap %r (h*area = %r)'
+                         % (va, ov, bound, vg, h * va), case=dict(case, rule='from_a', clause='parallel', integrand='one'), concrete=True)
+        # (b) proposed patches
+        n, nA, dn = o1['nrm'][i], o1['nA'][i], o1['dn'][i]
+        if not (all(math.isfinite(x) for x in n) and abs(n[0] * n[0] + n[1] * n[1] - 1) <= 1e-12):
+            ctx.fail('patch-proposal', 'patched average normal is not a unit vector: %r' % (n,), case=dict(case, rule='average_p'))
+        if dn > 1e-3 and n != o1['avg'][i]:
+            ctx.fail('patch-proposal', 'patched average normal %r differs from the source rule %r although |nA-nB| = %r > eps' % (n, o1['avg'][i], dn), case=dict(case, rule='average_p'))
+        if dn <= 1e-12:
+            fallback += 1
+            if n != nA:
+                ctx.fail('patch-proposal', 'coinciding normals: patched rule returns %r, expected the normal of A %r' % (n, nA), case=dict(case, rule='average_p'))
+        for rn in ('from_a', 'average_p'):
+            va, vg = o1[rn + '_one'][i], o1[rn + '_gap'][i]
+            wa, wg = o2[rn + '_one'][i], o2[rn + '_gap'][i]
+            if not (abs(va - ov) <= bound and abs(vg - h * va) <= 1e-9 * sc * (1 + abs(h))):
+                ctx.fail('patch-proposal', 'patched code (rule %s): area %r but overlap %r (bound %r); gap %r, h*area %r' % (rn, va, ov, bound, vg, h * va), case=dict(case, rule=rn))
+            if not (abs(wa - va) <= 1e-9 * sc and abs(wg - vg) <= 1e-9 * sc * (1 + abs(h))):
+                ctx.fail('patch-proposal', 'patched code (rule %s) not invariant under the rigid motion %r: area %r -> %r, gap %r -> %r' % (rn, motions[i], va, wa, vg, wg),
+                         case=dict(case, rule=rn, motion=motions[i]))
+    ctx.cov['patched_stream_pair_kinds'] = kinds
+    ctx.count('patched_fallback_to_normal_of_A', fallback)
+    if model_ok:
+        qtxt = '[' + '; '.join('(%s, %s)' % (fl(x), fl(w)) for x, w in I['quad']) + ']'
+        ex = []
+        for i, (a0, a1, b0, b1, kind, _) in enumerate(pairs):
+            args = ' '.join(fl(x) for x in (a0[0], a0[1], a1[0], a1[1], b0[0], b0[1], b1[0], b1[1]))
+            ap = '(average_normal_p %s)' % fl(eps)
+            ex.append("(let '(n0,n1) := %s %s in fencs [n0; n1; mortar_p %s normal_from_a %s (fun xa xb g => nunit) %s %s; mortar_p %s normal_from_a %s (fun xa xb g => g) %s %s; "
+                      "mortar_p %s %s %s (fun xa xb g => nunit) %s %s; mortar_p %s %s %s (fun xa xb g => g) %s %s])"
+                      % (ap, args, fl(tol), args, fl(ls[i]), qtxt, fl(tol), args, fl(ls[i]), qtxt, fl(tol), ap, args, fl(ls[i]), qtxt, fl(tol), ap, args, fl(ls[i]), qtxt))
+        res = C.coq_eval(IMPORTS, ex, 'C16P', shard=150, jobs=2)
+        mism = 0
+        for i, (z, (a0, a1, b0, b1, kind, (LA, LB, h, ov))) in enumerate(zip(res, pairs)):
+            v = C.dec_floats(z)
+            sc = max(LA, LB)
+            case = dict(fn='mortar', a0=a0, a1=a1, b0=b0, b1=b1, l=ls[i], kind='patched:' + kind)
+            want = o1['nrm'][i] + [o1['from_a_one'][i], o1['from_a_gap'][i], o1['average_p_one'][i], o1['average_p_gap'][i]]
+            tols = [1e-13, 1e-13] + [1e-9 * sc, 1e-9 * sc * (1 + abs(h))] * 2
+            names = ['normal[0]', 'normal[1]', 'area (from_a)', 'gap (from_a)', 'area (patched average)', 'gap (patched average)']
+            for j in range(6):
+                if not C.close(v[j], want[j], rtol=0, atol=(0.0 if kind == 'same_exact' and j < 2 else tols[j])):
+                    mism += 1
+                    if mism <= 8:
+                        ctx.fail('correspondence', 'model of the proposed patch: %s = %r but the patched Python gives %r' % (names[j], v[j], want[j]), case=case)
+        ctx.count('patched_model_vs_patched_python_comparisons', 6 * len(ex))
+        ctx.count('patched_model_mismatches', mism)
+    return 2 * len(pairs)
+
 
 # ----------------------------------------------------------------------------------------------- protocol
 
